@@ -94,6 +94,20 @@ def check(spec, ctx):
         ev_s = ctx.call(spec, f"sound_event_detection({how})", sound_event_detection, S(cps), S(cas), S(vocab))
         if ev_s.score != ev.score or len(ev_s.clip_evaluations) != len(ev.clip_evaluations) or [c.score for c in ev_s.clip_evaluations] != [c.score for c in ev.clip_evaluations]:
             ctx.fail(f"sound_event_detection on {how} gives score {ev_s.score} over {len(ev_s.clip_evaluations)} clips, on lists {ev.score} over {len(ev.clip_evaluations)}", spec, ev_s.score, ev.score, kind="sequence_inputs")
+    # two evaluations running in two threads with two vocabularies: this one is suspended at lines inside the library while the other
+    # thread evaluates the same clips, in reverse order, against the vocabulary without its first class, reversed
+    def digest(e):
+        return repr((e.score, [(str(c.annotations.clip.uuid), c.score, sorted(((m.affinity, m.score) for m in c.matches), key=repr)) for c in e.clip_evaluations], sorted(((m.term.name, m.value) for m in e.metrics), key=repr)))
+
+    vocab_b = (vocab[1:] if len(vocab) > 2 else vocab)[::-1]
+    ctx.interleave(
+        spec,
+        "sound_event_detection",
+        lambda: digest(sound_event_detection(cps, cas, vocab)),
+        lambda: digest(sound_event_detection(cps[::-1], cas[::-1], vocab_b)),
+        every=6,
+        max_pauses=14,
+    )
     ctx.case(spec, nontrivial=nontrivial, labels=labels, out={"clip_evaluations": len(ev.clip_evaluations), "score": ev.score})
 
     got_ids = sorted(str(ce.annotations.clip.uuid) for ce in ev.clip_evaluations)
